@@ -84,6 +84,12 @@ func judgeC06(c *fw.Ctx, sc *SnapCase) {
 		if len(r) < 3 {
 			c.Rec.Count("input_ring_with_<3_points")
 		}
+		if len(r) == 0 {
+			c.Rec.Count("input_ring_without_points")
+		}
+	}
+	if len(o.Rings) == 0 {
+		c.Rec.Count("input_polygon_without_rings")
 	}
 	// non-trivial: a chain with a repeated centre (reaches kmpDeduplicate / splitRing paths)
 	nt := false
@@ -217,7 +223,7 @@ func c06Fuzz(p *fw.ParentCtx) {
 }
 
 func init() {
-	pr := &Profile{Sets: c06Sets, Kinds: append(append([]string{}, allKinds...), "junk", "motif", "motif")}
+	pr := &Profile{Sets: c06Sets, Kinds: append(append([]string{}, allKinds...), "junk", "motif", "motif", "degenerate")}
 	fw.Register(&fw.Prop{
 		ID: "C06", Cases: tierN(300000, 6000000),
 		Run: func(c *fw.Ctx) {
@@ -240,9 +246,9 @@ func init() {
 			}
 			judgeC06(c, &sc)
 		},
-		Rule: "all generators (valid, junk with repeats/step-backs/1-2 point rings/duplicated rings, motif = grammar of back-tracks, repetitions and zig-zags on pixel centres), 1-3 rings, all flags, dyadic + RD + WebMercator (ids up to 24) + WorldMercator + ETRS89 + UPS + NZTM grids, plus polygons within units of the right/top border of non-round grids; observed: normal return / Go panic (value and top texel frame) / death of the worker process / loop step budget of hook H3 exceeded; non-trivial = oracle's routed chain passes a pixel centre more than once; distinct by case hash; thorough adds a coverage-guided campaign of Go's native fuzzer (harness/fuzz.FuzzSnap, 1.5 M executions, corpus seeded from the generators) whose crashers are converted to replay files",
+		Rule: "all generators (valid, junk with repeats/step-backs/1-2 point rings/duplicated rings, motif = grammar of back-tracks, repetitions and zig-zags on pixel centres, degenerate = rings of 0/1/2 points, repeated single points, polygons without rings), 1-3 rings, all flags, dyadic + RD + WebMercator (ids up to 24) + WorldMercator + ETRS89 + UPS + NZTM grids, plus polygons within units of the right/top border of non-round grids; observed: normal return / Go panic (value and top texel frame) / death of the worker process / loop step budget of hook H3 exceeded; non-trivial = oracle's routed chain passes a pixel centre more than once; distinct by case hash; thorough adds a coverage-guided campaign of Go's native fuzzer (harness/fuzz.FuzzSnap, 1.5 M executions, corpus seeded from the generators) whose crashers are converted to replay files",
 		Required: func(string) []string {
-			return []string{"returned_normally", "chain_with_repeated_centre", "input_ring_with_<3_points", "invalid_input", "gen:motif", "gen:junk"}
+			return []string{"returned_normally", "chain_with_repeated_centre", "input_ring_with_<3_points", "input_ring_without_points", "input_polygon_without_rings", "invalid_input", "gen:motif", "gen:junk"}
 		},
 		MinNonTriv:       1000,
 		Assumptions:      []string{"'time proportional to a small polynomial' is restated as logical step budgets on the kmp loops (8N^2 outer iterations, 64N^3 inner steps; N = input vertices + routed chain lengths + 8); a wall-clock watchdog only makes the run inconclusive", "recursion depth / memory are watched only through death of the worker process"},
